@@ -46,7 +46,10 @@ def build(inst):
     for pi, workers in enumerate(inst["cluster"]):
         ws = []
         for wi, cap in enumerate(workers):
-            w = Worker(f"W{pi}_{wi}", Resources({Resource(n): q for n, q in cap.items()}))
+            # a key "CPU#2" stands for a second entry of the resource name CPU (cluster
+            # files may list the same name several times; each entry gets its own id)
+            w = Worker(f"W{pi}_{wi}", Resources(
+                {Resource(n.split("#")[0]): q for n, q in cap.items()}))
             ws.append(w)
             b.worker_by_key[f"p{pi}w{wi}"] = w
             b.worker_caps[f"p{pi}w{wi}"] = dict(cap)
